@@ -1,6 +1,6 @@
 (* C02 — the backend receives the client's request unaltered.  Statements only. *)
 From Coq Require Import String List Bool.
-From IP Require Import Gen.SrcFacts_Server Lib.Header Server.HopFilter Proofs.HopFilterProofs.
+From IP Require Import Gen.SrcFacts_Server Lib.Header Server.HopFilter Proofs.HopFilterProofs Codec.Chunked Proofs.ChunkedProofs.
 Import ListNotations.
 Open Scope string_scope.
 Open Scope list_scope.
@@ -37,6 +37,17 @@ Proof.
     destruct H as [H|H]; rewrite H; [reflexivity|]. destruct (key_in serverHopByHop (lower k)); reflexivity.
 Qed.
 Print Assumptions C02_unaltered.
+
+(* The body of a request whose length the proxy does not know in advance (a chunked upload, or any body read from a
+   stream) is stored and handed to the agent in the chunked transfer coding (net/http's Request.Write) and parsed back by
+   the agent (http.ReadRequest): however the proxy's reads happened to segment it - any number of pieces, any sizes, any
+   bytes - the agent recovers exactly the concatenation, and a transfer cut short anywhere before the terminating chunk is
+   not taken for a complete body. *)
+Theorem C02_unknown_length_body : forall (reads : list (list nat)),
+  decode (encode reads []) = Some (concat reads, [CR; LF]) /\
+  (forall p q fuel acc, p ++ q = concat (map enc_chunk reads) ++ [48; CR; LF] -> q <> [] -> decode_fuel fuel p acc = None).
+Proof. intros reads. split; [exact (decode_encode reads [])|exact (truncated_rejected reads)]. Qed.
+Print Assumptions C02_unknown_length_body.
 
 (* non-vacuity *)
 Example C02_example :
